@@ -3,7 +3,7 @@
     panic-site table, and the corollaries for the stages other properties model (C11 schema extensions, C13
     imports, C12 runtime documents / loader, C10 schema declarations). *)
 From V Require Import Base.Util Gql.Ast Peg.Peg Gen.C07_grammar_gen C07.Builder C07.Model.
-From V Require Import C08.Model C08.Spec C08.SiteType Gen.C08_sites_gen C08.Sites C08.ProofsRender C08.ProofsEscape C08.Shape C08.ProofsShape C08.ProofsMerge C08.ImportsCost C08.ProofsVisitor C08.Proofs.
+From V Require Import C08.Model C08.Spec C08.SiteType Gen.C08_sites_gen C08.Sites C08.ProofsRender C08.ProofsEscape C08.Shape C08.ProofsShape C08.ProofsMerge C08.ImportsCost C08.ProofsVisitor C08.ProofsCount C08.Proofs.
 From V Require C07.Fuel C11.Properties C12.Properties C13.Properties.
 Local Open Scope N_scope.
 
@@ -148,3 +148,15 @@ Theorem C08_visitor_fragments_defined : forall S D,
      forall fuel st, C01.Model.visit_vars fuel (C01.Model.frag_defs D) sels st <> C01.Model.Err C01.Model.ETypeSystem).
 Proof. exact visitor_fragments_defined. Qed.
 Print Assumptions C08_visitor_fragments_defined.
+
+(** the single-root-field rule of subscriptions (count_selection_set_fields.rs collect_response_keys) terminates on
+    every document, fragment cycles included: on a copy of C03's model that reports fuel exhaustion (same result:
+    second conjunct) the fuel check_operation_document uses is never exhausted -- the path of followed fragments
+    grows with every spread, so the recursion depth is at most (fragments + 1) x (deepest definition) *)
+Theorem C08_subscription_count_terminates : forall D o,
+  In (DOp o) (od_defs D) ->
+  snd (crk_c (C03.Model.doc_fuel D) (C03.Model.doc_frags D) [] (op_sel o) []) = false /\
+  fst (crk_c (C03.Model.doc_fuel D) (C03.Model.doc_frags D) [] (op_sel o) []) =
+  C03.Model.collect_response_keys (C03.Model.doc_fuel D) (C03.Model.doc_frags D) [] (op_sel o) [].
+Proof. exact subscription_count_terminates. Qed.
+Print Assumptions C08_subscription_count_terminates.
